@@ -172,8 +172,8 @@ def backtest_spec(draw):
         declared = [c if isinstance(c, str) else c["sec"] for c in root.get("children") or []] or sorted(spec["prices"])
         clean = [t for t in declared if all(x is not None for x in spec["prices"][t])]
         if clean:
-            root["algos"] = root["algos"] + [["Or", {"algos": [["TradeNoUpdate", {"child": draw(st.sampled_from(clean)), "frac": draw(st.sampled_from([0.05, -0.05, 0.2])), "how": draw(st.sampled_from(["allocate", "transact"]))}], ["Const", {"v": True}]]}]]
-            root["algos"].insert(0, ["Or", {"algos": [["TradeNoUpdate", {"child": draw(st.sampled_from(clean)), "frac": draw(st.sampled_from([0.05, -0.1])), "how": "allocate"}], ["Const", {"v": True}]]}])
+            root["algos"] = root["algos"] + [["Or", {"algos": [["TradeNoUpdate", {"child": draw(st.sampled_from(clean)), "frac": draw(st.sampled_from([0.05, -0.05, 0.2])), "how": draw(st.sampled_from(["rebalance", "transact"]))}], ["Const", {"v": True}]]}]]
+            root["algos"].insert(0, ["Or", {"algos": [["TradeNoUpdate", {"child": draw(st.sampled_from(clean)), "frac": draw(st.sampled_from([0.05, -0.1])), "how": "transact"}], ["Const", {"v": True}]]}])
             spec["user_algos"] = "trade_no_update"
     elif k == 1 and has_sub:
         for _, nd in nodes[1:]:
